@@ -1,5 +1,7 @@
 import Rbp.Proofs.Wire
 import Rbp.Proofs.Block
+import Rbp.Proofs.RunSpec
+import Rbp.Proofs.Render
 /-!
 # C01 — csvdump reproduces every on-disk block, tx, input and output field exactly
 -/
@@ -30,6 +32,69 @@ theorem header_bytes (h : Header) (hk : h.ok) : h.toR.toBytes = h.enc ∧ h.enc.
 theorem compactSize_roundtrip (c : Count) (h : c.ok) (rest : Bytes) :
     readVarUint (c.enc ++ rest) = some (⟨c.v, c.enc⟩, rest) :=
   readVarUint_enc c h rest
+
+/-- the rows written for a parsed block are the rows of the on-disk values: block hash = double-SHA256 of the 80 header
+    bytes, txid = double-SHA256 of the witness-stripped transaction, one row per transaction / input / output in order,
+    scripts in hex, integers in decimal, blocksize = the stored length prefix (`Run.specRows` spells the fields out) -/
+theorem rows_are_disk_values (ver : UInt8) (size height : Nat) (b : Block) :
+    Csv.rows ver size height b.toR = Run.specRows ver size height b :=
+  Run.rows_toR ver size height b
+
+/-- exactly one row per transaction, per input and per output of the block -/
+theorem one_row_each (ver : UInt8) (size height : Nat) (b : Block) :
+    (Run.specRows ver size height b).2.1.length = b.txs.length ∧
+    (Run.specRows ver size height b).2.2.1.length = (b.txs.map (·.ins.length)).sum ∧
+    (Run.specRows ver size height b).2.2.2.length = (b.txs.map (·.outs.length)).sum :=
+  Run.specRows_counts ver size height b
+
+/-- **whole run.**  For a data directory whose index loads and in which every height of `start..maxH` is stored (record
+    present, blk file present, `LE32 size ‖ encoding of a well-formed block` at `offset-4`, whatever precedes or follows;
+    with `--verify`, verification passing), `csvdump` exits 0 and writes the four files named `…-start-maxH.csv` whose rows
+    are the rows of the abstract blocks in chain order, and the totals it prints are the numbers of rows written. -/
+theorem csvdump_run_spec (o : Run.Opts) (key : Option Bytes) (kvs : List (Bytes × Bytes)) (files : List Run.BlkFile)
+    (coin : Run.Coin) (ld : Run.Loaded) (hcoin : Run.coinOf o.coin = some coin) (hld : Run.loadIndex o kvs = .ok ld)
+    (hkey : key ≠ some []) (sz : Nat → Nat) (blk : Nat → Block)
+    (hs : ∀ k, o.start ≤ k → k < o.start + (ld.maxH + 1 - o.start) →
+      Run.Stored coin key (files.filterMap fun f => (Run.parseBlkIndex f.name).map fun n => (n, f)) ld.trimmed k (sz k) (blk k) ∧
+      (o.verify = true → Run.verifyBlock coin ld.trimmed (blk k).toR k = .ok ()))
+    (hne : o.start ≤ ld.maxH) (hcb : o.callback = "csvdump") :
+    let chain := (List.range' o.start (ld.maxH + 1 - o.start)).map (fun k => (k, sz k, blk k))
+    let rs := chain.map fun b => Run.specRows coin.version b.2.1 b.1 b.2.2
+    (Run.run o key kvs files).exit = 0 ∧
+    (Run.run o key kvs files).files = Run.specCsvFiles coin.version o.start ld.maxH chain ∧
+    (Run.run o key kvs files).stdout =
+      [s!"transactions={(rs.flatMap (·.2.1)).length}", s!"inputs={(rs.flatMap (·.2.2.1)).length}",
+       s!"outputs={(rs.flatMap (·.2.2.2)).length}"] := by
+  intro chain rs
+  obtain ⟨h0, _, hf, ho⟩ := Run.run_stored o key kvs files coin ld hcoin hld hkey sz blk hs hne (by simp [Run.callbackPanics, hcb])
+  have hmap : (List.range' o.start (ld.maxH + 1 - o.start)).map (fun k => (⟨k, sz k, (blk k).toR⟩ : CB.EBlock)) =
+      chain.map fun b => ⟨b.1, b.2.1, b.2.2.toR⟩ := by
+    simp [chain, List.map_map, Function.comp_def]
+  have hok : ∀ b ∈ chain, b.2.2.ok coin.auxpow := by
+    intro b hb
+    simp only [chain, List.mem_map, List.mem_range'_1] at hb
+    obtain ⟨k, ⟨hk1, hk2⟩, rfl⟩ := hb
+    obtain ⟨⟨_, _, _, _, _, _, _, _, hbk⟩, _⟩ := hs k hk1 hk2
+    exact hbk
+  refine ⟨h0, ?_, ?_⟩
+  · rw [hf, hmap]
+    simp only [Run.callbackOut, hcb]
+    exact Run.csvFiles_toR coin.version o.start ld.maxH chain
+  · rw [ho, hmap]
+    simp only [Run.callbackOut, hcb]
+    exact Run.totals_eq_rows coin.version coin.auxpow chain hok
+
+/-- scripts and hashes are lower-case hex, two characters per byte, and the rendering determines the bytes -/
+theorem hex_lowercase_faithful (bs : Bytes) :
+    (Sha.hex bs).toList.length = 2 * bs.length ∧
+    (∀ c ∈ (Sha.hex bs).toList, c ∈ ['0','1','2','3','4','5','6','7','8','9','a','b','c','d','e','f']) ∧
+    Hex.unhex (Sha.hex bs) = some bs :=
+  ⟨(Render.hex_lowercase bs).1, (Render.hex_lowercase bs).2, Render.unhex_hex bs⟩
+
+/-- integers are decimal digits only and the rendering determines the number -/
+theorem decimal_faithful (n : Nat) :
+    (∀ c ∈ (toString n).toList, c.isDigit = true) ∧ Nat.ofDigitChars 10 (toString n).toList 0 = n :=
+  ⟨Render.decimal_digits n, Render.decimal_roundtrip n⟩
 
 /-- non-vacuity at the width boundaries: 0xfc (1 byte), 0xfd and 0xffff (3 bytes), 0x10000 (5 bytes), 2^32 (9 bytes),
     and a non-minimal 9-byte encoding of 1 -/
